@@ -43,7 +43,7 @@ func (s *Server) Get(ctx context.Context, req *gnmi.GetRequest) (*gnmi.GetRespon
 	log.Infof("Received gNMI Get Request: %+v", req)
 	groups := make([]string, 0)
 	if md := metautils.ExtractIncoming(ctx); md != nil && md.Get("name") != "" {
-		groups = append(groups, strings.Split(md.Get("groups"), ";")...)
+		groups = append(groups, utils.CallerGroups(md)...)
 		log.Debugf("gNMI Get() called by '%s (%s)'. Groups %v. Token %s",
 			md.Get("name"), md.Get("email"), groups, md.Get("at_hash"))
 	}
